@@ -770,6 +770,26 @@ namespace occa {
         delete &token;
         return;
       }
+      // [defined NAME] is also valid without parentheses,
+      //   NAME must not be macro-expanded
+      if (dynamic_cast<definedMacro*>(macro) && !inputIsEmpty()) {
+        token_t *nameToken = NULL;
+        expandingMacros = false;
+        (*this) >> nameToken;
+        expandingMacros = true;
+        if (token_t::safeType(nameToken) & tokenType::identifier) {
+          const bool isDefined = !!getMacro(nameToken->to<identifierToken>().value);
+          pushOutput(new primitiveToken(token.origin,
+                                        isDefined,
+                                        isDefined ? "true" : "false"));
+          delete nameToken;
+          delete &token;
+          return;
+        }
+        if (nameToken) {
+          pushInput(nameToken);
+        }
+      }
       // Function-like macro is not called
       if (inputIsEmpty()) {
         pushOutput(&token);
